@@ -661,6 +661,28 @@ def pow_stepwise(ty, x, n):
     return acc, ovf
 
 
+POW_TABLE_MIN_EXP = 43
+
+
+def pow_table(ty, x, n):
+    """x**n for a LARGE concrete exponent n >= 43 on a type of at most 128 bits: exact without any multiplication, because only
+    the bases -7..7 can have a representable power (|x| >= 8 gives |x|**n >= 2**129); (wrapped result, overflowed)"""
+    bits, signed = INT_TYPES[ty]
+    assert n >= POW_TABLE_MIN_EXP and bits <= 128
+    lo = -(1 << (bits - 1)) if signed else 0
+    hi = (1 << (bits - 1)) - 1 if signed else (1 << bits) - 1
+    # beyond the table: overflow; the wrapped value is not modelled there (kept as a fresh unconstrained term by the caller's guard)
+    res = z3.BitVec("pow_wrapped_%d_%d" % (bits, n), bits)
+    ovf = z3.BoolVal(True)
+    for b in range(-7 if signed else 0, 8):
+        p = b ** n
+        fits = lo <= p <= hi
+        hit = x == z3.BitVecVal(b, bits)
+        res = z3.If(hit, z3.BitVecVal(p & ((1 << bits) - 1), bits), res)
+        ovf = z3.If(hit, z3.BoolVal(not fits), ovf)
+    return res, ovf
+
+
 _pow_re = re.compile(r"^core::num::<impl (%s)>::(pow|checked_pow|wrapping_pow)$" % INT)
 POW_MAX_EXP = 8
 
@@ -676,9 +698,9 @@ def m_int_pow(ex, st, callee, args):
     if not z3.is_bv_value(e):
         raise Inconclusive("pow with a symbolic exponent (the check instantiates exponents 0..%d)" % POW_MAX_EXP)
     n = e.as_long()
-    if n > POW_MAX_EXP:
+    if n > POW_MAX_EXP and n < POW_TABLE_MIN_EXP:
         raise Inconclusive("pow exponent %d beyond the stated bound" % n)
-    res, ovf = pow_stepwise(ty, a.e, n)
+    res, ovf = pow_stepwise(ty, a.e, n) if n <= POW_MAX_EXP else pow_table(ty, a.e, n)
     val = Sc(ty, res)
     if fn == "checked_pow":
         return [(z3.Not(ovf), some(val)), (ovf, NONE)]
